@@ -627,10 +627,11 @@ class ObjTranslator:
     """
 
     def __init__(self, fn, *, src_file, lean_name, kind, siblings, externals=(), ignored_calls=(), params=None,
-                 has_self=True, stop_before=None, result_locals=None, doc=""):
+                 has_self=True, stop_before=None, result_locals=None, doc="", method_externals=()):
         self.fn, self.src_file, self.lean_name, self.kind = fn, src_file, lean_name, kind
         self.siblings: dict[str, Sibling] = siblings
         self.externals, self.ignored_calls = set(externals), set(ignored_calls)
+        self.method_externals = set(method_externals)
         self.has_self = has_self
         self.params = params
         self.stop_before = stop_before          # predicate on a statement: translation ends before it
@@ -755,6 +756,8 @@ class ObjTranslator:
                 return f"len {self.atom(a[0])}", False
             if n == "list" and len(a) == 1:
                 return f"toList {self.atom(a[0])}", False
+            if n == "getattr" and len(a) == 2:
+                return f"getattrW W {self.atom(a[0])} {self.atom(a[1])}", False
             if n in self.siblings and not self.siblings[n].is_property and self.siblings[n].kind == "fn":
                 sb = self.siblings[n]
                 if len(a) != sb.n_args:
@@ -776,6 +779,9 @@ class ObjTranslator:
                 return f"{sb.lean_name} W self_ {' '.join(self.atom(x) for x in a)}".rstrip(), False
             if f.attr == "get" and len(a) == 1:
                 return f"dictGet {self.atom(f.value)} {self.atom(a[0])}", False
+            if f.attr in self.method_externals and not self.is_self(f.value):
+                # the same method on *another* instance (`self.base.resolve(t)`): not unfolded, the world answers
+                return f"W.ext {json.dumps(f.attr)} {self.args_list([f.value] + list(a))}", False
             if f.attr in ("append", "extend", "clear", "sort", "pop", "update", "insert", "remove"):
                 self.fail(e, f"mutating method {f.attr} inside an expression")
             if isinstance(f.value, ast.Name) and f.value.id in ("exc",):
@@ -829,8 +835,8 @@ class ObjTranslator:
                 return f"(← isinstance {self.atom(a[0])} {self.cls_list(a[1])})"
             if n == "bool" and len(a) == 1:
                 return f"(← truthy {self.atom(a[0])})"
-            if n == "hasattr":
-                self.fail(e, "hasattr")
+            if n == "hasattr" and len(a) == 2:
+                return f"(← hasattrW W {self.atom(a[0])} {self.atom(a[1])})"
         return f"(← truthy {self.atom(e)})"
 
     # ---- statements ------------------------------------------------------------------------------------------
@@ -1180,7 +1186,8 @@ def gen_group(repo: Path, notes: list, *, src_file: str, cls_name: str | None, f
             tr = ObjTranslator(fn, src_file=spec.get("src_file", src_file), lean_name=lean, kind=kind, siblings=dict(siblings),
                                externals=externals, ignored_calls=ignored_calls, params=spec.get("params"),
                                has_self=has_self, stop_before=spec.get("stop_before"),
-                               result_locals=spec.get("result_locals"), doc=spec.get("doc", ""))
+                               result_locals=spec.get("result_locals"), doc=spec.get("doc", ""),
+                               method_externals=spec.get("method_externals", ()))
             out.append(tr.translate() + "\n")
         except Untranslatable as e:
             notes.append(f"untranslatable {e} ({cls_name or ns}.{py})")
@@ -1247,6 +1254,27 @@ def _group_body(text: str) -> list[str]:
     return lines[start:end]
 
 
+def _find_nested(outer: str, inner: str):
+    def find(_tree, cls):
+        o = find_method(cls, outer)
+        return next((n for n in (o.body if o else []) if isinstance(n, ast.FunctionDef) and n.name == inner), None)
+    return find
+
+
+def gen_registry(repo: Path, notes: list, gate_ok: bool) -> str:
+    """Gen/Registry.lean: `TypeRegistry.register`'s inner `decorator(f)` (insert + stable sort + cache drop +
+    generation; the closure variables `detector`, `priority` become parameters) and `resolve`"""
+    return gen_group(
+        repo, notes, src_file="utype/utils/base.py", cls_name="TypeRegistry", ns="Registry",
+        title="utype/utils/base.py (class TypeRegistry: register's decorator, resolve)",
+        funcs=[
+            {"py": "decorator", "lean": "register_decorator", "find": _find_nested("register", "decorator"), "kind": "mut",
+             "params": ["detector", "priority"], "has_self": True, "arity": 4,
+             "doc": " (inner function of `register`; closure variables `detector`, `priority` are parameters)"},
+            {"py": "resolve", "kind": "mut", "arity": 2, "method_externals": {"resolve"}},
+        ], gate_ok=gate_ok)
+
+
 def gen_field(repo: Path, notes: list, gate_ok: bool) -> str:
     return gen_group(
         repo, notes, src_file="utype/parser/field.py", cls_name="ParserField", ns="Field",
@@ -1271,6 +1299,7 @@ def main():
     unprov_ok = check_unprovided(repo, notes)
     files["Field.lean"] = gen_field(repo, notes, unprov_ok)
     files["Options.lean"] = gen_options(repo, notes, unprov_ok)
+    files["Registry.lean"] = gen_registry(repo, notes, unprov_ok)
     files["NOTES.txt"] = "\n".join(notes) + ("\n" if notes else "")
     for name, txt in files.items():
         p = outd / name
